@@ -412,6 +412,30 @@ func runSelectLogs(d *Daemon, p *Plan, out *Outcome) (res evalResult) {
 		res.err = err
 		return res
 	}
+	if pre := p.Tags["pre_query"]; pre != "" {
+		// An earlier, different selection through the same querier: whatever it
+		// leaves behind must not influence the selection that is judged.
+		psel, err := logql.ParseSelector(pre, logql.ParseOptions{})
+		if err != nil {
+			res.err = fmt.Errorf("parse: %w", err)
+			return res
+		}
+		piter, err := q.SelectLogs(context.Background(),
+			otelstorage.Timestamp(p.Params.Start), otelstorage.Timestamp(p.Params.End),
+			logqlengine.SelectLogsParams{Labels: psel.Matchers})
+		if err != nil {
+			res.err = err
+			return res
+		}
+		var prec logstorage.Record
+		for n := 0; piter.Next(&prec); n++ {
+			if n > 1_000_000 {
+				panic("verifsim: iterator does not terminate")
+			}
+		}
+		_ = piter.Close()
+		d.SetPhase(1)
+	}
 	sel, err := logql.ParseSelector(p.Query, logql.ParseOptions{})
 	if err != nil {
 		res.err = fmt.Errorf("parse: %w", err)
